@@ -351,7 +351,7 @@ Proof.
   induction ss as [|s t IH]; intros; simpl; auto.
   rewrite IH. destruct (cov t i) as [q|].
   - f_equal. lia.
-  - destruct (sfirst s <=? i); auto. f_equal. lia.
+  - destruct (sfirst s <=? i); [f_equal; lia | reflexivity].
 Qed.
 
 Lemma covering_cov : forall ss i, covering ss i = cov ss i.
@@ -367,31 +367,208 @@ Proof.
   specialize (IH _ _ _ _ C Hx). lia.
 Qed.
 
-Lemma cov_none_later : forall t s lo hi i,
-  seg_chain lo (s :: t) hi -> i <= lo -> cov t i = None.
+Lemma cov_none_later : forall t s2 mid hi i,
+  seg_chain mid (s2 :: t) hi -> sfirst s2 = mid + 1 -> i <= mid -> cov (s2 :: t) i = None.
 Proof.
-  induction t as [|s2 t2 IH]; intros s lo hi i C L; simpl; auto.
-  pose proof C as C0. destruct C as [mid [_ [L2 [_ [F C]]]]].
-  rewrite (IH _ _ _ _ C) by lia.
-  destruct (sfirst s2 <=? i) eqn:Q; auto. lia.
+  induction t as [|s3 t3 IH]; intros s2 mid hi i C F L.
+  - simpl. destruct (sfirst s2 <=? i) eqn:Q; auto. lia.
+  - destruct C as [mid2 [_ [L2 [_ [F2 C]]]]].
+    change (cov (s2 :: s3 :: t3) i) with (match cov (s3 :: t3) i with Some q => Some (S q) | None => if sfirst s2 <=? i then Some 0%nat else None end).
+    rewrite (IH _ _ _ _ C F2) by lia.
+    destruct (sfirst s2 <=? i) eqn:Q; auto. lia.
 Qed.
 
-(* in a chain whose first name index is <= i: the covering segment p, everything before it is <= i
-   (entries) resp. below the covering segment's name (markers), and the chain continues from it *)
-Lemma covering_chain : forall ss lo hi i,
-  seg_chain lo ss hi -> sfirst (hd (mkSeg 0 []) ss) <= i ->
-  exists p pre s post,
-    covering ss i = Some p /\ ss = pre ++ s :: post /\ length pre = p /\ sfirst s <= i
-    /\ (forall x, In x (entries (all_recs pre)) -> x <= i)
-    /\ (forall x, In x (markers (all_recs pre)) -> x <= i)
-    /\ (exists lo', seg_chain lo' (s :: post) hi /\ lo' <= i /\ (pre <> [] -> lo' + 1 = sfirst s) /\ (pre = [] -> lo' = lo)).
+(* in a chain that starts at or before i: the covering segment p; the entries read from it on are the
+   indices lo'+1 .. hi for some lo' <= i, and the marker of i (if there is one) is not lost by skipping *)
+Lemma read_chain : forall ss lo hi i,
+  seg_chain lo ss hi -> lo <= i -> sfirst (hd (mkSeg 0 []) ss) <= i ->
+  exists p lo', cov ss i = Some p /\ (p < length ss)%nat
+    /\ entries (all_recs (skipn p ss)) = range lo' hi /\ lo' <= i /\ lo' <= hi
+    /\ (In i (markers (all_recs ss)) -> In i (markers (all_recs (skipn p ss)))).
 Proof.
-  induction ss as [|s t IH]; intros lo hi i H Hf; [destruct H|].
-  simpl in Hf. rewrite covering_cov.
+  induction ss as [|s t IH]; intros lo hi i H L Hf; [destruct H|].
+  simpl in Hf.
   destruct t as [|s2 t2].
-  - exists 0%nat, [], s, []. simpl.
-    destruct (sfirst s <=? i) eqn:Q; [|lia].
-    repeat split; auto; try (intros x []).
-    exists lo. repeat split; auto; try congruence.
-    (* lo <= i: lo is the predecessor of the first name or the start; we only know sfirst s <= i *)
-Abort.
+  - exists 0%nat, lo. simpl. destruct (sfirst s <=? i) eqn:Q; [|lia].
+    destruct H as [E [L0 _]]. unfold all_recs. simpl. rewrite app_nil_r.
+    repeat split; auto.
+  - pose proof H as H0. destruct H as [mid [E0 [L0 [M0 [F C]]]]].
+    destruct (mid + 1 <=? i) eqn:Q2.
+    + destruct (IH mid hi i C ltac:(lia) ltac:(simpl; lia)) as [p [lo' [Hc [Hp [He [Hl [Hl2 Hm]]]]]]].
+      exists (S p), lo'. change (cov (s :: s2 :: t2) i) with (match cov (s2 :: t2) i with Some q => Some (S q) | None => if sfirst s <=? i then Some 0%nat else None end).
+      rewrite Hc. split; [reflexivity|]. split; [simpl in *; lia|]. split; [exact He|]. split; [exact Hl|]. split; [exact Hl2|].
+      intros Hi. apply Hm. rewrite all_recs_cons, markers_app in Hi. apply in_app_or in Hi.
+      destruct Hi as [Hi|Hi]; auto. apply M0 in Hi. lia.
+    + exists 0%nat, lo. change (cov (s :: s2 :: t2) i) with (match cov (s2 :: t2) i with Some q => Some (S q) | None => if sfirst s <=? i then Some 0%nat else None end).
+      rewrite (cov_none_later _ _ _ _ _ C F) by lia.
+      destruct (sfirst s <=? i) eqn:Q; [|lia].
+      split; [reflexivity|]. split; [simpl; lia|]. split; [apply (seg_chain_entries _ _ _ H0)|].
+      split; [exact L|]. split; [eapply seg_chain_le; eauto|]. auto.
+Qed.
+
+(* ---------- ReadAll over a flat record list ---------- *)
+
+Lemma read_step_ent : forall i st e,
+  read_step i (Ok st) (REnt e) =
+  if i <? e then
+    (if Nat.ltb (length (rd_ents st)) (N.to_nat (e - i - 1)) then Err E_OUT_OF_RANGE
+     else Ok (mkReadst (firstn (N.to_nat (e - i - 1)) (rd_ents st) ++ [e]) (rd_commit st) (rd_match st)))
+  else Ok st.
+Proof. reflexivity. Qed.
+Lemma read_step_state : forall i st c, read_step i (Ok st) (RState c) = Ok (mkReadst (rd_ents st) c (rd_match st)).
+Proof. reflexivity. Qed.
+Lemma read_step_snap : forall i st m,
+  read_step i (Ok st) (RSnap m) = if m =? i then Ok (mkReadst (rd_ents st) (rd_commit st) true) else Ok st.
+Proof. reflexivity. Qed.
+
+Lemma read_flat : forall R i hi st x,
+  entries R = range x hi -> x <= hi ->
+  rd_ents st = range i (N.max i x) ->
+  exists st', fold_left (read_step i) R (Ok st) = Ok st'
+    /\ rd_ents st' = range i (N.max i hi)
+    /\ rd_match st' = (rd_match st || memN i (markers R))
+    /\ rd_commit st' = fold_left (fun acc r => match r with RState c => c | _ => acc end) R (rd_commit st).
+Proof.
+  induction R as [|r R IH]; intros i hi st x E L Hst.
+  - simpl in *. exists st. split; auto. split.
+    + assert (x = hi). { destruct (N.eq_dec x hi); auto. exfalso. rewrite range_cons in E by lia. discriminate. }
+      subst. exact Hst.
+    + split; auto. rewrite orb_false_r. reflexivity.
+  - destruct r as [e|c|m].
+    + (* entry *)
+      unfold entries in E. simpl in E. fold (entries R) in E.
+      assert (Hx : x < hi). { destruct (N.ltb_spec x hi); auto. rewrite range_nil in E by lia. discriminate. }
+      rewrite range_cons in E by lia. injection E as He ER.
+      cbn [fold_left]. rewrite read_step_ent.
+      destruct (i <? e) eqn:Q.
+      * assert (Hmax : N.max i x = x) by lia. rewrite Hmax in Hst.
+        assert (Hlen : length (rd_ents st) = N.to_nat (e - i - 1)). { rewrite Hst, range_length. lia. }
+        rewrite Hlen, Nat.ltb_irrefl.
+        rewrite <- Hlen, firstn_all.
+        destruct (IH i hi (mkReadst (rd_ents st ++ [e]) (rd_commit st) (rd_match st)) (x + 1) ER ltac:(lia)) as [st' [F [A [B C]]]].
+        { simpl. rewrite Hst. subst e. replace (N.max i (x + 1)) with (x + 1) by lia. symmetry. apply range_snoc. lia. }
+        exists st'. split; [exact F|]. split; [exact A|]. split.
+        -- rewrite B. simpl. unfold markers. simpl. reflexivity.
+        -- rewrite C. reflexivity.
+      * destruct (IH i hi st (x + 1) ER ltac:(lia)) as [st' [F [A [B C]]]].
+        { rewrite Hst. f_equal. lia. }
+        exists st'. split; [exact F|]. split; [exact A|]. split.
+        -- rewrite B. unfold markers. simpl. reflexivity.
+        -- rewrite C. reflexivity.
+    + (* hard state *)
+      unfold entries in E. simpl in E. fold (entries R) in E.
+      cbn [fold_left]. rewrite read_step_state.
+      destruct (IH i hi (mkReadst (rd_ents st) c (rd_match st)) x E L Hst) as [st' [F [A [B C]]]].
+      exists st'. split; [exact F|]. split; [exact A|]. split.
+      * rewrite B. unfold markers. simpl. reflexivity.
+      * rewrite C. reflexivity.
+    + (* snapshot marker *)
+      unfold entries in E. simpl in E. fold (entries R) in E.
+      cbn [fold_left]. rewrite read_step_snap.
+      destruct (m =? i) eqn:Q.
+      * destruct (IH i hi (mkReadst (rd_ents st) (rd_commit st) true) x E L Hst) as [st' [F [A [B C]]]].
+        exists st'. split; [exact F|]. split; [exact A|]. split.
+        -- rewrite B. simpl. unfold markers. simpl. fold (markers R). unfold memN. simpl.
+           rewrite N.eqb_sym, Q. rewrite orb_true_r. reflexivity.
+        -- rewrite C. reflexivity.
+      * destruct (IH i hi st x E L Hst) as [st' [F [A [B C]]]].
+        exists st'. split; [exact F|]. split; [exact A|]. split.
+        -- rewrite B. unfold markers. simpl. fold (markers R). unfold memN. simpl.
+           rewrite N.eqb_sym, Q. reflexivity.
+        -- rewrite C. reflexivity.
+Qed.
+
+Lemma memN_In : forall x l, memN x l = true <-> In x l.
+Proof.
+  intros. unfold memN. rewrite existsb_exists. split.
+  - intros [y [Hy E]]. apply N.eqb_eq in E. subst. auto.
+  - intros H. exists x. split; auto. apply N.eqb_refl.
+Qed.
+
+(* what a restart reads from a well-shaped WAL at a snapshot index whose marker is there *)
+Lemma read_all_chain : forall ss lo hi i,
+  seg_chain lo ss hi -> lo <= i -> sfirst (hd (mkSeg 0 []) ss) <= i ->
+  In i (markers (all_recs ss)) ->
+  exists cm, read_all ss i = Ok (range i hi, cm).
+Proof.
+  intros ss lo hi i C L F M.
+  destruct (read_chain _ _ _ _ C L F) as [p [lo' [Hc [Hp [He [Hl [Hl2 Hm]]]]]]].
+  unfold read_all. rewrite covering_cov, Hc.
+  destruct (read_flat (all_recs (skipn p ss)) i hi (mkReadst [] 0 false) lo' He Hl2) as [st' [Ff [A [B Cm]]]].
+  { simpl. rewrite range_nil by lia. reflexivity. }
+  rewrite Ff. rewrite B. simpl.
+  assert (HM : memN i (markers (all_recs (skipn p ss))) = true) by (apply memN_In; auto).
+  rewrite HM. exists (rd_commit st'). rewrite A.
+  assert (i <= hi) by (eapply seg_chain_markers; eauto).
+  replace (N.max i hi) with hi by lia. reflexivity.
+Qed.
+
+(* ---------- choosing the snapshot ---------- *)
+
+Lemma fold_max_some : forall l a,
+  exists b, fold_left (fun acc x => match acc with None => Some x | Some m => Some (N.max m x) end) l (Some a) = Some b
+            /\ a <= b /\ (forall y, In y l -> y <= b) /\ (b = a \/ In b l).
+Proof.
+  induction l as [|x l IH]; intros a.
+  - exists a. simpl. split; [reflexivity|]. split; [lia|]. split; [intros y []|left; reflexivity].
+  - simpl. destruct (IH (N.max a x)) as [b [F [L [B D]]]].
+    exists b. split; [exact F|]. split; [lia|]. split.
+    + intros y [<-|Hy]; [lia | auto].
+    + destruct D as [->|D]; [|right; right; exact D].
+      destruct (N.max_spec a x) as [[_ ->]|[_ ->]]; [right; left; reflexivity | left; reflexivity].
+Qed.
+
+Lemma maxl_nil : maxl [] = None.
+Proof. reflexivity. Qed.
+
+Lemma maxl_is_max : forall l x, In x l -> (forall y, In y l -> y <= x) -> maxl l = Some x.
+Proof.
+  intros l x Hx Hb. destruct l as [|a l]; [destruct Hx|].
+  unfold maxl. simpl. destruct (fold_max_some l a) as [b [F [L [B D]]]]. rewrite F. f_equal.
+  assert (b <= x). { destruct D as [->|D]; [apply Hb; left; auto | apply Hb; right; auto]. }
+  assert (x <= b). { destruct Hx as [<-|Hx]; [exact L | apply B; exact Hx]. }
+  lia.
+Qed.
+
+Lemma filter_nil_iff : forall (A : Type) (f : A -> bool) l, (forall x, In x l -> f x = false) -> filter f l = [].
+Proof. induction l; simpl; intros; auto. rewrite H by (left; auto). apply IHl. intros. apply H. right; auto. Qed.
+
+Lemma valid_markers_all : forall ss,
+  (forall i, In i (markers (all_recs ss)) -> i <= last_commit (all_recs ss)) ->
+  valid_markers ss = markers (all_recs ss).
+Proof.
+  intros ss H. unfold valid_markers.
+  assert (G : forall l, (forall i, In i l -> i <= last_commit (all_recs ss)) -> filter (fun i => i <=? last_commit (all_recs ss)) l = l).
+  { induction l; simpl; intros; auto. destruct (a <=? last_commit (all_recs ss)) eqn:Q.
+    - f_equal. apply IHl. intros. apply H0. right; auto.
+    - specialize (H0 a (or_introl eq_refl)). lia. }
+  apply G. exact H.
+Qed.
+
+(* the restart of a well-shaped world whose newest marker m has its file and checkpoint *)
+Lemma recover_chain : forall ss lo hi sf cks m,
+  seg_chain lo ss hi -> lo = lo_of ss ->
+  In m (markers (all_recs ss)) -> (forall i, In i (markers (all_recs ss)) -> i <= m) ->
+  (forall i, In i (markers (all_recs ss)) -> i <= last_commit (all_recs ss)) ->
+  sfirst (hd (mkSeg 0 []) ss) <= m ->
+  ~ In 0 sf ->
+  (0 < m -> In m sf /\ lookup m cks = Some (range 0 m)) ->
+  recover ss sf cks = Ok (range 0 hi).
+Proof.
+  intros ss lo hi sf cks m C Hlo Hm Hmax Hvalid Hfirst H0 Hfile.
+  assert (Llo : lo <= m). { subst lo. unfold lo_of. lia. }
+  assert (Lmh : m <= hi) by (eapply seg_chain_markers; eauto).
+  unfold recover, choose_snapshot. rewrite (valid_markers_all _ Hvalid).
+  destruct (N.eq_dec m 0) as [Hz|Hz].
+  - subst m.
+    rewrite filter_nil_iff.
+    + rewrite maxl_nil. destruct (read_all_chain _ _ _ 0 C Llo Hfirst Hm) as [cm R]. rewrite R. reflexivity.
+    + intros x Hx. destruct (memN x (markers (all_recs ss))) eqn:Q; auto.
+      apply memN_In in Q. apply Hmax in Q. assert (x = 0) by lia. subst. contradiction.
+  - destruct (Hfile ltac:(lia)) as [Hsf Hck].
+    rewrite (maxl_is_max _ m).
+    + rewrite Hck. destruct (read_all_chain _ _ _ m C Llo Hfirst Hm) as [cm R]. rewrite R.
+      f_equal. symmetry. apply range_app; lia.
+    + apply filter_In. split; auto. apply memN_In. exact Hm.
+    + intros y Hy. apply filter_In in Hy. destruct Hy as [_ Hy]. apply memN_In in Hy. auto.
+Qed.
